@@ -22,6 +22,42 @@ def shared(prog):
     return any(v > 1 for v in use.values())
 
 
+def d35_shape(prog):
+    """the tree shapes the known finding D35 is about: a sum / product node that is used more than once, or two operands of sums /
+    products one of which is the other followed by point-wise functions / scalings (operator chains with a common prefix)"""
+    uses = {}
+    for s in prog:
+        if s["op"] in ("add", "sub", "mul", "vdot"):
+            for r in (s["x"], s["y"]):
+                uses[r] = uses.get(r, 0) + 1
+    binary = {i for i, s in enumerate(prog, 1) if s["op"] in ("add", "sub", "mul", "vdot")}
+    if any(uses.get(i, 0) > 1 for i in binary) or any(s["op"] not in ("add", "sub", "mul", "vdot", "var") and s["x"] in binary and uses.get(s["x"], 0) >= 1 for s in prog):
+        return True
+
+    def root_chain(i):
+        ch = [i]
+        while prog[i - 1]["op"] not in ("var", "add", "sub", "mul", "vdot") and prog[i - 1]["x"]:
+            i = prog[i - 1]["x"]
+            ch.append(i)
+        return ch
+    occ = [r for s_ in prog if s_["op"] in ("add", "sub", "mul", "vdot") for r in (s_["x"], s_["y"])]
+    for i in range(len(occ)):
+        for j in range(i + 1, len(occ)):
+            common = set(root_chain(occ[i])) & set(root_chain(occ[j]))
+            if any(prog[c - 1]["op"] != "var" for c in common):
+                return True
+    return False
+
+
+def node_reuse(prog):
+    uses = {}
+    for s in prog:
+        for r in (s["x"], s["y"]):
+            if r:
+                uses[r] = uses.get(r, 0) + 1
+    return any(uses.get(i, 0) > 1 for i, s in enumerate(prog, 1) if s["op"] in ("add", "sub", "mul", "vdot"))
+
+
 def check_program(b, inst):
     ift = b.ift
     from nifty.cl.operator_tree_optimiser import optimise_operator
@@ -31,17 +67,19 @@ def check_program(b, inst):
     except Exception as e:
         return [("build", "building the operator raised %s: %s" % (type(e).__name__, str(e)[:120]))], 0
     try:
-        opt = optimise_operator(op)
+        with ift.random.Context(12345):          # the optimiser draws its self-check input from the global generator: fixed here
+            opt = optimise_operator(op)
     except AssertionError as e:
         # the optimiser compares the two operators on ONE standard-normal input; a program that is not defined there (sqrt, log, ... of a
         # negative number: NaN != NaN) makes that self-check fail - a refusal, not a wrong result.  Only programs that are finite on
         # standard-normal inputs must pass it.
         rs = np.random.RandomState(7)
         finite = True
-        for _ in range(6):
+        for _ in range(80):
             x = ift.MultiField.from_dict({k: ift.makeField(b.dom, rs.standard_normal(2)) for k in op.domain.keys()}, domain=op.domain)
             with np.errstate(all="ignore"):
-                finite = finite and bool(np.all(np.isfinite(np.atleast_1d(op(x).asnumpy()))))
+                r_ = op(x)
+                finite = finite and bool(np.all(np.isfinite(np.atleast_1d((r_["s"] if isinstance(r_, ift.MultiField) else r_).asnumpy()))))
         if not finite:
             return [], 0
         return [("self-check", "optimise_operator's own comparison failed although the operator is finite on standard-normal inputs: %s" % str(e)[:100])], 0
@@ -51,7 +89,7 @@ def check_program(b, inst):
         out.append(("domain", "domain or target changed"))
         return out, 0
     n = 0
-    for pt in cc.POINTS:
+    for pt in cc.points_for(inst):
         try:
             val, jac, _ = cc.expected(inst, pt)
         except cc.Singular:
@@ -62,9 +100,10 @@ def check_program(b, inst):
             x = b.point(op, pt)
             for nm, o in (("optimised", opt), ("original after optimising", op)):
                 lin = o(ift.Linearization.make_var(x))
-                v = np.atleast_1d(lin.val.asnumpy()).ravel()
+                fl = lambda f: np.atleast_1d((f["s"] if isinstance(f, ift.MultiField) else f).asnumpy()).ravel()
+                v = fl(lin.val)
                 J, JT = b.dense_jac(o, lin)
-                if not cc.close(v, val) or not cc.close(np.atleast_1d(o(x).asnumpy()).ravel(), val):
+                if not cc.close(v, val) or not cc.close(fl(o(x)), val):
                     out.append(("value", "%s operator %s: value %s, expected %s" % (nm, where, v.tolist(), val.tolist())))
                 if not cc.close(J, jac) or not cc.close(JT, J.T, 1e-12):
                     out.append(("jacobian", "%s operator %s: Jacobian %s, expected %s" % (nm, where, np.round(J, 8).tolist(), np.round(jac, 8).tolist())))
@@ -75,7 +114,7 @@ def check_program(b, inst):
 
 def run(ctx):
     b = cc.Builder()
-    progs = cc.emit_programs(ctx, ctx.quick, "C05")
+    progs = cc.emit_programs(ctx, ctx.quick, "C05", preload="tagged")
     nsh = sum(1 for p in progs if shared(p["prog"]))
     if nsh < 50:
         raise tlcmod.MachineryError("too few programs with shared sub-trees: %d" % nsh)
@@ -86,7 +125,8 @@ def run(ctx):
             res, n = check_program(b, inst)
             tot += n
             for kind, msg in res:
-                ctx.violation(dict(kind=kind, shared=shared(inst["prog"]), ops=sorted({s["op"] for s in inst["prog"]})), "%s: %s" % (cc.describe(inst["prog"]), msg), replay=dict(program=inst))
+                ctx.violation(dict(kind=kind, d35_shape=d35_shape(inst["prog"]), node_reuse=node_reuse(inst["prog"]), shared=shared(inst["prog"]), tagged=any(s["op"] == "tag" for s in inst["prog"]), error=(msg.split("raised ")[1].split(":")[0] if "raised " in msg else ""),
+                                   ops=sorted({s["op"] for s in inst["prog"]})), "%s: %s" % (cc.describe(inst["prog"]), msg), replay=dict(program=inst))
     ctx.traces += len(progs)
     ctx.notes.update(programs=len(progs), with_shared_subtrees=nsh, evaluations=tot)
     ctx.sample(dict(program=cc.describe(next(p for p in progs if shared(p["prog"]))["prog"])))
@@ -108,7 +148,7 @@ def replay(ctx, doc):
 
 def selftest(ctx):
     b = cc.Builder()
-    r = tlcmod.run("Calculus", 'CONSTANTS MaxSlots = 3\nFnSet = "rat"\nPreload = FALSE\nSPECIFICATION Spec\nINVARIANT Emit\nCHECK_DEADLOCK FALSE\n', workers=1, timeout=900)
+    r = tlcmod.run("Calculus", 'CONSTANTS MaxSlots = 3\nFnSet = "rat"\nPreload = "none"\nSPECIFICATION Spec\nINVARIANT Emit\nCHECK_DEADLOCK FALSE\n', workers=1, timeout=900)
     inst = next(i for i in r.emitted if shared(i["prog"]) and i["prog"][-1]["op"] == "mul")
     with quiet():
         good, _ = check_program(b, inst)
